@@ -37,6 +37,7 @@ enum Fault {
 impl Fault {
     fn name(&self) -> String {
         match self {
+            Fault::Arity(_, _, n) if *n == 4 || *n == 5 => "reference-into-empty-array".to_string(),
             Fault::Arity(_, _, n) => format!("arity-{n}"),
             Fault::SourceIdx(_, _, v) => format!("source-index-{}", idx_class(*v)),
             Fault::NameIdx(_, _, v) => format!("name-index-{}", idx_class(*v)),
@@ -223,6 +224,13 @@ fn structural_faults(b: &Base) -> Vec<Fault> {
             for n in [2, 3, 6, 7] {
                 f.push(Fault::Arity(li, si, n));
             }
+            // a segment that starts referencing an empty array (all deltas zero: index 0 of nothing)
+            if src.is_none() && b.ns == 0 {
+                f.push(Fault::Arity(li, si, 4));
+            }
+            if b.nn == 0 && (src.is_none() || matches!(src, Some((_, _, _, None)))) {
+                f.push(Fault::Arity(li, si, 5));
+            }
             f.push(Fault::Continuation(li, si));
             let nfields = 1 + src.map_or(0, |s| 3 + s.3.is_some() as usize);
             for fi in 0..nfields {
@@ -373,7 +381,7 @@ pub fn run(run: &mut Run) -> Finish {
 
     Finish {
         level: "fault_enumeration",
-        rule: "E1 fault enumeration on the real decoder. Bases: every well-formed document with <= 2 lines x <= 2 segments of 1/4/5 fields for all (sources, names) array sizes in {0,1,2}^2 (each base must decode and all its references resolve). Faults, each at every site where it applies: arity 2/3/6/7; source and name running index set to len, len+1, -1, -len-1, 2^32+valid, -2^32+valid, 2^33+valid (other segments keep their absolute values); continuation bit on the segment's last digit; a field re-encoded with 14 and 15 digits; every non-alphabet ASCII byte except , ; and fifteen multi-byte characters (incl. code points whose low byte is a base64 digit) inserted at every offset. Then every ordered pair of structural faults at different sites and structural x foreign pairs on the two-segment bases. Oracle: decode_slice returns Err. Distinct by construction; every faulty document is non-trivial; class = fault type(s).".into(),
+        rule: "E1 fault enumeration on the real decoder. Bases: every well-formed document with <= 2 lines x <= 2 segments of 1/4/5 fields for all (sources, names) array sizes in {0,1,2}^2 (each base must decode and all its references resolve). Faults, each at every site where it applies: arity 2/3/6/7; source and name running index set to len, len+1, -1, -len-1, 2^32+valid, -2^32+valid, 2^33+valid (other segments keep their absolute values); continuation bit on the segment's last digit; a segment turned into a 4-/5-field one although the sources / names array is empty; a field re-encoded with 14 and 15 digits; every non-alphabet ASCII byte except , ; and fifteen multi-byte characters (incl. code points whose low byte is a base64 digit) inserted at every offset. Then every ordered pair of structural faults at different sites and structural x foreign pairs on the two-segment bases. Oracle: decode_slice returns Err. Distinct by construction; every faulty document is non-trivial; class = fault type(s).".into(),
         assumptions: vec!["JSON escaping of inserted characters is done by serde_json, so the decoder sees the raw character in the mappings string".into()],
         coverage_extra: json!({"bases": nb, "two_segment_bases": n2, "foreign_characters": fc.len()}),
     }
